@@ -995,8 +995,8 @@ def stmt_exact(d, top=True):
     return all(stmt_exact(v, False) for kk, v in d.items() if kk not in ("values", "defaults"))
 
 
-FEATURE_PRIORITY = ["positional-shorter", "map-size", "map-key-constraint", "oneOf", "notF", "allOf",
-                    "sign-with-explicit-bound", "unique-by-python-eq"]
+FEATURE_PRIORITY = ["positional-shorter", "map-key-constraint", "oneOf", "notF", "allOf",
+                    "sign-with-explicit-bound", "unique-by-python-eq", "enum-null"]
 
 
 def inexact_features(d, acc):
@@ -1015,6 +1015,8 @@ def inexact_features(d, acc):
             acc.add("map-key-constraint")
         if k in ("oneOf", "notF", "allOf"):
             acc.add(k)
+        if k == "enumLit" and any(v is None for v in d.get("values", [])):
+            acc.add("enum-null")        # null is an enum member for the schema and an absent key for the runtime
         if k in ("integer", "number", "float") and d.get("sign", "any") != "any":
             if (d["sign"] in ("pos", "nonneg") and d.get("min") is not None) or \
                     (d["sign"] in ("neg", "nonpos") and d.get("max") is not None):
